@@ -114,7 +114,13 @@ func simplifyCurve(curve Path,
 				}
 			}
 			if j == len(curve)-1 {
-				// Add last point regardless of distance.
+				// Add last point regardless of distance. The closing segment
+				// is not a candidate of the scan above, so if it would cross
+				// the part of the line already kept, keep the original points
+				// in between instead.
+				if j > i+1 && segMakesNotSimple(curve[i], curve[j], []Path{out}) {
+					out = append(out, curve[i+1:j]...)
+				}
 				out = append(out, curve[j])
 				breakTime = true
 			}
